@@ -214,13 +214,22 @@ def iso3 (p : Jac Fq2) : Jac Fq2 :=
 
 def mapToCurveG1 (u : Fq) : Jac Fq := clearHG1 (iso11 (osswuG1 u))
 
-/-- `map2_to_curve` AS WRITTEN in /repo: adds the two SSWU images with the target curve's
-    `add_assign` *before* the isogeny -/
-def map2ToCurveG1 (u0 u1 : Fq) : Jac Fq := clearHG1 (iso11 ((osswuG1 u0).add (osswuG1 u1)))
+/-- `map2_to_curve` (after the `fix:` commit in /repo): isogeny on each SSWU image, then
+    `add_assign` on the target curve, then `clear_h` -/
+def map2ToCurveG1 (u0 u1 : Fq) : Jac Fq := clearHG1 ((iso11 (osswuG1 u0)).add (iso11 (osswuG1 u1)))
+
+/-- `map2_to_curve` as it was BEFORE the fix: the two SSWU images were added with the target
+    curve's `add_assign` before the isogeny (kept only to state the refutation in Props/C14) -/
+def map2ToCurveG1PreFix (u0 u1 : Fq) : Jac Fq := clearHG1 (iso11 ((osswuG1 u0).add (osswuG1 u1)))
 
 def mapToCurveG2 (u : Fq2) : Option (Jac Fq2) := (osswuG2 u).map (fun p => clearHG2 (iso3 p))
 
 def map2ToCurveG2 (u0 u1 : Fq2) : Option (Jac Fq2) := do
+  let p0 ← osswuG2 u0
+  let p1 ← osswuG2 u1
+  pure (clearHG2 ((iso3 p0).add (iso3 p1)))
+
+def map2ToCurveG2PreFix (u0 u1 : Fq2) : Option (Jac Fq2) := do
   let p0 ← osswuG2 u0
   let p1 ← osswuG2 u1
   pure (clearHG2 (iso3 (p0.add p1)))
